@@ -898,7 +898,8 @@ let run_ui (wd : uworld) preload width height root feeds keys ~frames ~hooks =
     @ (if hooks then put_text hooked else []) in
   let s0 = ui_init (z_of_int width) (z_of_int height) in
   (* VerifOpen(root): switchTo under the lock, mode normal, one frame *)
-  let s1 = runt s0 (TOpen (OItem root)) in
+  let s1 = if root >= 0 then runt s0 (TOpen (OItem root))
+    else runt s0 (TOpen (OColl (CList (match Hashtbl.find_opt wd.uw_kids (- root - 1) with Some ks -> ks | None -> [])))) in
   let st = ref (settle_all s1) in
   let out = ref (snap !st []) in
   let gated = ref false in
